@@ -179,6 +179,12 @@ impl TypeInfoImpl {
                 StaticLifetimesReplace.visit_type_mut(&mut ty);
 
                 let type_name = clean_type_string(&quote!(#ty).to_string());
+                // A field marked `#[codec(encoded_as = "..")]` is described by the type it is
+                // encoded as, since that is what ends up in the encoded bytes.
+                if let Some(mut encoded_as) = utils::maybe_encoded_as(f) {
+                    StaticLifetimesReplace.visit_type_mut(&mut encoded_as);
+                    ty = encoded_as;
+                }
                 let docs = self.generate_docs(&f.attrs);
                 let type_of_method = if utils::is_compact(f) {
                     quote!(compact)
